@@ -106,6 +106,18 @@ def host_classes():
           return (params_t, *inputs_t)
         tagged = nn.custom_vjp(f, forward_fn=fwd, backward_fn=bwd)
         return dict(y=tagged(core, primals[0]))
+      if k == 'custom_vjp_inputs':
+        # the user's rule rescales the INPUT cotangent (straight-through / gradient-reversal style rules); the wrapped module may
+        # have no variables at all in grad_vars
+        def f(mdl, x):
+          return mdl(x)
+        def fwd(mdl, x):
+          return nn.vjp(f, mdl, x)
+        def bwd(vjp_fn, y_t):
+          params_t, *inputs_t = vjp_fn(y_t)
+          return (params_t, *[g * 3.0 for g in inputs_t])
+        tagged = nn.custom_vjp(f, forward_fn=fwd, backward_fn=bwd)
+        return dict(y=tagged(core, primals[0]))
       if k == 'plain':
         return dict(y=core(primals[0]))
       raise ValueError(k)
@@ -299,7 +311,40 @@ def run_custom_vjp(ctx, i, rng):
     ctx.check(close(v_t, v_p), 'custom_vjp:forward_value_under_grad', lambda: dict(case=desc))
 
 
+def run_custom_vjp_inputs(ctx, i, rng):
+  import jax
+  import jax.numpy as jnp
+  from flax.core import unfreeze
+  H = host_classes()
+  Host = H['Host']
+  d = rng.randint(1, 3)
+  variant = ['params', 'only_batch_stats', 'no_variables'][i % 3]
+  if variant == 'params':
+    inner = gen_inner(rng, d)
+  elif variant == 'only_batch_stats':
+    inner = ('node', 'compact', (('act', 'tanh'), ('stat', 'batch_stats', 'ra', 0.9, d), ('act', 'tanh')))
+  else:
+    inner = ('node', 'compact', (('act', 'tanh'), ('nop',), ('act', 'tanh')))
+  desc = dict(kind='custom_vjp_inputs', variant=variant, inner=repr(inner)[:300], d=d)
+  with ctx.case('custom_vjp_inputs', i, desc, nontrivial=True):
+    nr = np.random.default_rng(rng.getrandbits(32))
+    primals = make_primals(nr, 1, d)
+    plain, tagged = Host('plain', inner, d), Host('custom_vjp_inputs', inner, d)
+    V = unfreeze(plain.init({'params': jax.random.key(i)}, primals, None))
+    ctx.op('nn.custom_vjp(input rule)')
+    ctx.check(close(plain.apply(V, primals, None)['y'], tagged.apply(V, primals, None)['y']), 'custom_vjp:forward_value', lambda: dict(case=desc))
+    # an upstream Dense-like map makes the input cotangent matter for upstream gradients as well
+    w = jnp.asarray(nr.uniform(-1, 1, size=(d, d)).astype(np.float32))
+    loss = lambda mod: (lambda ww, x: jnp.sum(mod.apply(V, (x @ ww,), None)['y'] ** 2))
+    gw_p, gx_p = jax.grad(loss(plain), argnums=(0, 1))(w, primals[0])
+    gw_t, gx_t = jax.grad(loss(tagged), argnums=(0, 1))(w, primals[0])
+    ctx.check(close(gx_t, gx_p * 3.0, dict(rtol=1e-4, atol=1e-5)) and close(gw_t, gw_p * 3.0, dict(rtol=1e-4, atol=1e-5)),
+              'custom_vjp:backward_rule_not_used', lambda: dict(case=desc, variant=variant))
+
+
 def run(ctx):
+  for i in ctx.indices(15 if ctx.tier == 'quick' else 150, 'custom_vjp_inputs'):
+    run_custom_vjp_inputs(ctx, i, ctx.rng('cvi', i))
   for i in ctx.indices(240 if ctx.tier == 'quick' else 3600, 'case'):
     run_case(ctx, i, ctx.rng('case', i))
   for i in ctx.indices(14 if ctx.tier == 'quick' else 200, 'custom_vjp'):
